@@ -251,6 +251,17 @@ class Interp:
             if isinstance(o, dict) and not isinstance(o, Obj) and (key in o or tgt['cs'].endswith('operator[]')):
                 o[key] = v
                 return
+        if tgt['k'] in ('CXXMemberCallExpr', 'CXXOperatorCallExpr') and (tgt.get('cs') or '').startswith('std::vector::') and (tgt.get('cs') or '').split('::')[-1] in ('at', 'operator[]'):
+            if tgt['k'] == 'CXXMemberCallExpr':
+                o = self.eval(fn, fn.stmts[tgt['obj']], env)
+                i = self.eval(fn, fn.stmts[tgt['args'][0]], env)
+            else:
+                o = self.eval(fn, fn.stmts[tgt['args'][0]], env)
+                i = self.eval(fn, fn.stmts[tgt['args'][1]], env)
+            if isinstance(o, list) and isinstance(i, int) and 0 <= i < len(o):
+                o[i] = v
+                return
+            raise OutOfFragment('vector element assignment out of range at %s' % fn.loc(tgt))
         if tgt['k'] == 'UnaryOperator' and tgt.get('op') == '*':
             base = self.eval(fn, fn.stmts[tgt['c'][0]], env)
             if isinstance(base, tuple) and len(base) == 2 and base[0] == 'ptr' and isinstance(base[1], Obj) and 'v' in base[1]:
@@ -315,6 +326,12 @@ class Interp:
                 return Obj(v) if isinstance(v, Obj) else v
         v = self.std_model(fn, n, env)
         if v is not NOT_HANDLED:
+            return v
+        if k == 'CXXMemberCallExpr' and (cs_ or callee or '').startswith('std::_Bit_reference::operator') and 'obj' in n:
+            return bool(self.eval(fn, S[n['obj']], env))          # vector<bool>::reference converts to the stored bit
+        if k == 'CXXOperatorCallExpr' and (cs_ or callee or '').startswith('std::_Bit_reference::operator=') and len(n.get('args', [])) == 2:
+            v = self.eval(fn, S[n['args'][1]], env)
+            self.assign(fn, S[n['args'][0]], bool(v), env)
             return v
         if k in ('CXXConstructExpr', 'CXXTemporaryObjectExpr') and (n.get('cls') or '').startswith('std::function') and len(n.get('args', [])) == 1:
             return self.eval(fn, S[n['args'][0]], env)      # std::function wrapping a lambda: the lambda value itself
@@ -527,6 +544,10 @@ class Interp:
                 return []
             if isinstance(args[0], list):
                 return list(args[0])
+            if isinstance(args[0], int) and not isinstance(args[0], bool) and len(args) >= 2 and not isinstance(args[1], (list, tuple)):
+                return [args[1]] * args[0]          # vector(count, value)
+            if isinstance(args[0], int) and not isinstance(args[0], bool) and len(args) == 1:
+                return [0] * args[0]
             raise OutOfFragment('std::vector constructor form at %s' % fn.loc(n))
         # ---- strings as python bytes
         if k in ('CXXConstructExpr', 'CXXTemporaryObjectExpr') and (n.get('cls') or '').startswith(('std::basic_string', 'std::__cxx11::basic_string')):
